@@ -175,8 +175,11 @@ func (p *Pool) Release(ip net.IP) {
 	for mac, allocatedIP := range p.allocated {
 		if allocatedIP.Equal(ip) {
 			delete(p.allocated, mac)
-			// Add back to available (at the end)
-			p.available = append(p.available, ip)
+			// Add back to available (at the end), unless the address was
+			// declined: a quarantined address must never be offered again
+			if _, declined := p.unavailable[ip.String()]; !declined {
+				p.available = append(p.available, ip)
+			}
 			return
 		}
 	}
